@@ -191,6 +191,24 @@ func (fr *Frame) inline(n *vnode, instr *ssa.Call, callee *ssa.Function, args, f
 	if c, ok := x.eng.Contracts[callee.String()]; ok && c.Inline {
 		con = c
 	}
+	// loop specs for the inlined callee given by the function under contract: "loop callee.N ..."
+	if top := x.topFrame; top != nil && top.contract != nil {
+		pref := shortName(callee) + "."
+		for k, ls := range top.contract.Loops {
+			if strings.HasPrefix(k, pref) {
+				if con == nil || !con.synth {
+					base := con
+					con = &Contract{Key: callee.String(), Inline: true, Loops: map[string]*LoopSpec{}, Opts: map[string]string{}, synth: true}
+					if base != nil {
+						for k2, v := range base.Loops {
+							con.Loops[k2] = v
+						}
+					}
+				}
+				con.Loops[strings.TrimPrefix(k, pref)] = ls
+			}
+		}
+	}
 	sub := x.newFrame(callee, fr, args, free, con)
 	sub.prefix = fr.prefix + "inl." + shortName(callee) + "."
 	exits := sub.run(n.reach, n.heap)
@@ -412,6 +430,9 @@ func (fr *Frame) applyContract(n *vnode, instr *ssa.Call, con *Contract, callee 
 		t := post.evalBool(e.E)
 		x.vc.Assume(Implies(n.reach, t))
 	}
+	for _, e := range con.Defines {
+		x.vc.Assume(Implies(n.reach, post.evalBool(e.E)))
+	}
 	for _, ic := range refined {
 		ipost := x.contractEnv(ic, nil, sig, true, args, argTypes, results, n.heap, tpkg)
 		ipost.old = x.contractEnv(ic, nil, sig, true, args, argTypes, nil, oldHeap, tpkg)
@@ -433,6 +454,13 @@ func (x *Exec) callSeq(name string, i int) int {
 func (fr *Frame) havocClause(n *vnode, m *Clause, env *SpecEnv) {
 	x := fr.x
 	e := m.E
+	if e.Kind == "call" && e.Name == "elems" && len(e.Args) == 1 {
+		sv := env.eval(e.Args[0])
+		if sv.T.S == SSlice {
+			fr.havocSliceElems(n, sv)
+			return
+		}
+	}
 	switch e.Kind {
 	case "ident":
 		if e.Name == "all" {
@@ -442,19 +470,14 @@ func (fr *Frame) havocClause(n *vnode, m *Clause, env *SpecEnv) {
 		if e.Name == "nothing" {
 			return
 		}
+		if e.Name == "cursors" {
+			cur := x.comp(n.heap, "G$cursor", SArray(SInt, SInt))
+			n.heap["G$cursor"] = x.eng.FreshVar("G$cursor", cur.S)
+			return
+		}
 		sv := env.eval(e)
 		if sv.T.S == SSlice {
-			el := sv.Ty.Underlying().(*types.Slice).Elem()
-			es := x.eng.SortOf(el)
-			comp := memComp(es)
-			cur := x.comp(n.heap, comp, memSort(es))
-			// only elements inside [off, off+cap) of the row may change
-			row := x.eng.FreshVar(comp+"$row", cur.S.Elem)
-			oldRow := Select(cur, SArr(sv.T))
-			j := Var("j?", SInt)
-			x.vc.Assume(Forall([]*Term{j}, Implies(Or(Lt(j, SOff(sv.T)), Ge(j, Add(SOff(sv.T), SCap(sv.T)))),
-				Eq(App("select", es, row, j), App("select", es, oldRow, j)))))
-			n.heap[comp] = x.nameBig(Store(cur, SArr(sv.T), row), comp)
+			fr.havocSliceElems(n, sv)
 			return
 		}
 	case "field":
@@ -503,6 +526,21 @@ func (fr *Frame) havocClause(n *vnode, m *Clause, env *SpecEnv) {
 	stale("unsupported modifies item %q", m.Text)
 }
 
+func (fr *Frame) havocSliceElems(n *vnode, sv *SV) {
+	x := fr.x
+	el := sv.Ty.Underlying().(*types.Slice).Elem()
+	es := x.eng.SortOf(el)
+	comp := memComp(es)
+	cur := x.comp(n.heap, comp, memSort(es))
+	// only elements inside [off, off+cap) of the row may change
+	row := x.eng.FreshVar(comp+"$row", cur.S.Elem)
+	oldRow := Select(cur, SArr(sv.T))
+	j := Var("j?", SInt)
+	x.vc.Assume(Forall([]*Term{j}, Implies(Or(Lt(j, SOff(sv.T)), Ge(j, Add(SOff(sv.T), SCap(sv.T)))),
+		Eq(App("select", es, row, j), App("select", es, oldRow, j)))))
+	n.heap[comp] = x.nameBig(Store(cur, SArr(sv.T), row), comp)
+}
+
 func (fr *Frame) havocObject(n *vnode, ref *Term, t types.Type) {
 	x := fr.x
 	st, ok := t.Underlying().(*types.Struct)
@@ -536,6 +574,9 @@ func contains(ss []string, s string) bool {
 func (x *Exec) modClauseTargets(m *Clause, callee *ssa.Function, c *ssa.CallCommon, con *Contract, f func(comp string, arg ssa.Value, whole bool)) {
 	e := m.E
 	names := contractParamNames(con, callee, len(c.Args)+1)
+	if con.Kind == "iface" && c.IsInvoke() && len(con.Params) > 0 {
+		names = append([]string{"this"}, con.Params...)
+	}
 	argOf := func(name string) (ssa.Value, types.Type) {
 		var all []ssa.Value
 		if c.IsInvoke() {
@@ -556,6 +597,10 @@ func (x *Exec) modClauseTargets(m *Clause, callee *ssa.Function, c *ssa.CallComm
 			return
 		}
 		if e.Name == "nothing" {
+			return
+		}
+		if e.Name == "cursors" {
+			f("G$cursor", nil, true)
 			return
 		}
 		if a, t := argOf(e.Name); a != nil {
@@ -580,6 +625,24 @@ func (x *Exec) modClauseTargets(m *Clause, callee *ssa.Function, c *ssa.CallComm
 			}
 		}
 	case "call":
+		if e.Name == "elems" && len(e.Args) == 1 {
+			// elements of a slice held in a field: element type from the field's type
+			if fe := e.Args[0]; fe.Kind == "field" && fe.Args[0].Kind == "ident" {
+				if a, t := argOf(fe.Args[0].Name); a != nil {
+					bt, _ := derefType(t)
+					if st, ok := bt.Underlying().(*types.Struct); ok {
+						for i := 0; i < st.NumFields(); i++ {
+							if st.Field(i).Name() == fe.Name {
+								if sl, ok := st.Field(i).Type().Underlying().(*types.Slice); ok {
+									f(memComp(x.eng.SortOf(sl.Elem())), nil, true)
+									return
+								}
+							}
+						}
+					}
+				}
+			}
+		}
 		if e.Name == "cursor" || e.Name == "fpos" {
 			f("G$"+e.Name, nil, true)
 			return
